@@ -25,16 +25,15 @@ Gen(x) == /\ phase = "gen" /\ Len(val) < MaxLen
 
 \* lexer (parse/v2/xml shiftAttribute): literal tab/LF/CR inside the quotes are overwritten with a blank
 Lexed == [i \in 1..Len(val) |-> IF val[i] \in {9, 10, 13} THEN 32 ELSE val[i]]
-\* parse.ReplaceEntities(val, EntitiesMap = {apos, gt, quot}, nil): named references of the map and
-\* numeric references below 128 become the byte itself; a reference to '&' stays when the next raw
-\* byte could continue a reference (letter, digit, '#')
+\* parse.ReplaceEntities(val, EntitiesMap = {apos, gt, quot}, AttrRevEntitiesMap): named references of the
+\* map and numeric references below 128 become the byte itself, except the bytes of the reverse map
+\* (fix 83190a6), which are written as  &lt;  &amp;  &#9;  &#10;  &#13;
 Decode(v) ==
   [i \in 1..Len(v) |->
      LET x == v[i] c == x % 1000
-         nextRaw == IF i = Len(v) THEN 0 ELSE IF v[i+1] >= 1000 THEN 38 ELSE v[i+1]
      IN IF x >= 2000 /\ x < 3000 THEN (IF c \in {39, 62, 34} THEN c ELSE x)
         ELSE IF IsNumRef(x) /\ c < 128
-             THEN (IF c = 38 /\ (IsAlnum(nextRaw) \/ nextRaw = 35) THEN x ELSE c)
+             THEN (IF c \in {60, 38} THEN 2000 + c ELSE IF c \in {9, 10, 13} THEN 1000 + c ELSE c)
              ELSE x]
 \* xml.EscapeAttrVal: the quote that needs fewer escapes; the chosen quote is written &#34; / &#39;
 Count(v, c) == Cardinality({i \in 1..Len(v) : v[i] = c})
@@ -56,18 +55,10 @@ SameValue == AttrNorm(Atoms(val)) = AttrNorm(Atoms(oval))
 Holds == WellFormed(oq, oval) /\ SameValue
 
 (* Constructs on which the real code is known to break the property (known/C06.txt). *)
-HasNumRefTo(cs) == \E i \in 1..Len(val) : IsNumRef(val[i]) /\ (val[i] % 1000) \in cs
-\* K1: numeric reference to '<' in a double-quoted value is written as a literal '<'
-KnownLt == q = 34 /\ HasNumRefTo({60})
-\* K2: numeric reference to '&' is written as a bare '&' unless a letter, digit or '#' follows
-KnownAmp == q = 34 /\ \E i \in 1..Len(val) :
-               /\ IsNumRef(val[i]) /\ val[i] % 1000 = 38
-               /\ (i = Len(val) \/ val[i+1] >= 1000 \/ ~(IsAlnum(val[i+1]) \/ val[i+1] = 35))
-\* K3: numeric reference to tab/LF/CR is written as the literal character, which normalises to a blank
-KnownWsRef == q = 34 /\ HasNumRefTo({9, 10, 13})
+\* (K1-K3 - numeric references to < & tab LF CR written literally - were excepted here until fix 83190a6)
 \* K4: a literal CR LF pair (one line break, XML 1.0 2.11) is written as two blanks
 KnownCrLf == \E i \in 1..Len(val) - 1 : val[i] = 13 /\ val[i+1] = 10
-Known == KnownLt \/ KnownAmp \/ KnownWsRef \/ KnownCrLf
+Known == KnownCrLf
 
 DesignRefinesInfoset == phase = "done" => (Holds \/ Known)
 TypeOK == phase \in {"gen", "done"} /\ Len(val) <= MaxLen
